@@ -69,6 +69,7 @@ enum Source {
 fn sources(prop: &str) -> Vec<Source> {
     match prop {
         "C04" => vec![Source::Staking, Source::Staking, Source::Staking, Source::Arith],
+        "C06" | "C08" | "C17" => vec![Source::Staking, Source::Staking, Source::Staking, Source::Staking, Source::Migr],
         "C09" => vec![Source::Staking, Source::Staking, Source::Hooks, Source::Migr],
         "C10" => vec![Source::Staking, Source::Staking, Source::Staking, Source::Migr],
         "C12" => vec![Source::Staking, Source::Treasury],
@@ -194,7 +195,7 @@ fn explore(prop: &str, seed: u64, runs: u64, workers: usize, known: &Known, keep
                             *hm = Some(format!("run {} step {} [{}] {}", idx, hv.step, hv.clause, hv.msg));
                         }
                     }
-                    if let Some(nb) = first_matching(&ev, "NOBOOT", None) {
+                    if let Some(nb) = first_matching(&ev, "SETASIDE", None) {
                         let mut g = noboot.lock().unwrap();
                         g.0 += 1;
                         if g.1.is_none() {
@@ -242,9 +243,9 @@ fn explore(prop: &str, seed: u64, runs: u64, workers: usize, known: &Known, keep
     }
     let (nb, first) = noboot.into_inner().unwrap();
     if nb > 0 {
-        eprintln!("note: {} of {} runs were set aside because the contract refused a configuration the model considers valid ({})", nb, t.evaluations, first.unwrap_or_default());
+        eprintln!("note: {} of {} runs were set aside: the tree did something no property speaks about and the model cannot follow (first: {})", nb, t.evaluations, first.unwrap_or_default());
         if nb * 2 > t.evaluations && found.lock().unwrap().is_none() {
-            eprintln!("HARNESS ERROR: most runs could not instantiate the contract");
+            eprintln!("HARNESS ERROR: most runs had to be set aside");
             std::process::exit(2);
         }
     }
